@@ -6,6 +6,15 @@ From Coq Require Import List ZArith QArith Qreals Reals Bool.
 From QV Require Import Base.Py Model.Arrays Proofs.Arrays Proofs.ArraysR.
 Import ListNotations.
 
+(** the constructor (numbers with no / common / per-element / relative uncertainties, name, unit) gives
+    the list of (value, uncertainty) pairs, every element with the unit and named name_j, and the
+    invariant the edit theorems start from *)
+Theorem C17_constructor : forall h nx data sp name u s2 A,
+  mk_array (h, nx) data sp name u = (s2, Ok A) ->
+  exists errs, error_array data sp = Ok errs /  abs (fst s2) A = combine data errs /\ inv s2 A /  named (fst s2) A name u /\ (A <> [] -> arr_name (fst s2) A = name /\ arr_unit (fst s2) A = u) /  (forall id, (id < nx)%nat -> fst s2 id = h id).
+Proof. exact mk_array_spec. Qed.
+Print Assumptions C17_constructor.
+
 (** append: the result is the list followed by the coerced operand; the source list is unchanged *)
 Theorem C17_append : forall h nx A o h' nx' R,
   append (h, nx) A o = ((h', nx'), Ok R) -> bounded nx A -> operand_ok nx o ->
